@@ -700,7 +700,7 @@ func (messagesMapper) Save(msg *types.Message, attachmentURLs []string, readBySe
 		var attachments []string
 		for _, url := range attachmentURLs {
 			// Convert attachment URLs to file IDs.
-			if fid := mediaHandler.GetIdFromUrl(url); !fid.IsZero() {
+			if fid := mediaHandler.GetIdFromUrl(url); !fid.IsZero() && fileExists(fid) {
 				attachments = append(attachments, fid.String())
 			}
 		}
@@ -1041,6 +1041,14 @@ func (fileMapper) DeleteUnused(olderThan time.Time, limit int) error {
 	return nil
 }
 
+// fileExists checks that the upload record exists. The links are inserted in one batch: a single
+// reference to an upload which does not exist (never made, or already collected) fails the whole
+// batch on the foreign key and leaves the existing files of the same list unlinked.
+func fileExists(fid types.Uid) bool {
+	fd, err := adp.FileGet(fid.String())
+	return err == nil && fd != nil
+}
+
 // LinkAttachments connects earlier uploaded attachments to a message or topic to prevent it
 // from being garbage collected.
 func (fileMapper) LinkAttachments(topic string, msgId types.Uid, attachments []string) error {
@@ -1052,7 +1060,7 @@ func (fileMapper) LinkAttachments(topic string, msgId types.Uid, attachments []s
 	// Convert attachment URLs to file IDs.
 	var fids []string
 	for _, url := range attachments {
-		if fid := mediaHandler.GetIdFromUrl(url); !fid.IsZero() {
+		if fid := mediaHandler.GetIdFromUrl(url); !fid.IsZero() && fileExists(fid) {
 			fids = append(fids, fid.String())
 		}
 	}
